@@ -91,12 +91,14 @@ pub struct DataCfg {
     pub big_ints: bool,
     /// REAL cells are mostly +0.0 / -0.0 (equal as values, different as printed)
     pub zeros: bool,
+    /// INT cells (other than the key g) between 10^8 and 3*10^9 in magnitude: sums of their squares pass 2^53 but stay inside 64 bits
+    pub mid_ints: bool,
 }
 
 impl DataCfg {
     pub fn random(rng: &mut Rng, ncols: usize, hostile: bool) -> DataCfg {
         let rates = [0u32, 0, 100, 300, 600, 900];
-        DataCfg { null_rate: (0..ncols).map(|_| *rng.pick(&rates)).collect(), hostile, keys: 1 + rng.below(5), exact: true, big_ints: false, zeros: false }
+        DataCfg { null_rate: (0..ncols).map(|_| *rng.pick(&rates)).collect(), hostile, keys: 1 + rng.below(5), exact: true, big_ints: false, zeros: false, mid_ints: false }
     }
 }
 
@@ -116,6 +118,7 @@ pub fn std_cell(rng: &mut Rng, name: &str, ty: &Ty, cfg: &DataCfg, col_index: us
         Ty::Text => if name == "k" { Cell::Text(TEXT_POOL[rng.below(cfg.keys.min(TEXT_POOL.len()))].to_owned()) } else { Cell::Text(rng.pick(TEXT_POOL).to_string()) },
         Ty::Int => {
             if name == "g" { Cell::Int(rng.range(0, cfg.keys as i64)) }
+            else if cfg.mid_ints && rng.chance(3, 4) { Cell::Int(*rng.pick(&[3_000_000_000i64, 95_000_000, -2_999_999_999, 123_456_789, 1_000_000_007, -100_000_001, 2_147_483_648, 94_906_267]) + rng.range(0, 3)) }
             else if cfg.big_ints && rng.chance(3, 4) { Cell::Int(*rng.pick(&[9007199254740992i64, 9007199254740993, 9007199254740994, 9007199254740991, -9007199254740992, -9007199254740993, 4611686018427387904, 4611686018427387905, 4611686018427387903, 36028797018963968, 36028797018963969, 36028797018963971])) }
             else if cfg.hostile && rng.chance(1, 6) { Cell::Int(*rng.pick(&[i64::MAX, i64::MIN, i64::MAX - 1, i64::MIN + 1, 1 << 62, -(1 << 62), 3037000500, 0, -1])) }
             else { Cell::Int(rng.range(-4, 9)) }
